@@ -87,6 +87,7 @@ func TestC10(t *testing.T) {
 	}
 	functionLevel(r)
 	socketForms(r)
+	subnetSpellings(r)
 	crashPoints(r)
 	datastoreErrors(r)
 	loadErrors(r)
@@ -108,6 +109,7 @@ func TestC10(t *testing.T) {
 	r.Require("crash.crash.images_after_return", 1000)
 	r.Require("crash.must_refuse.subnet", 500)
 	r.Require("crash.allow_after_unblock.ip", 200)
+	r.Require("crash.crash.restarts_midhistory", 100)
 	r.Require("dserr.dserr.calls_returning_error.applied", 200)
 	r.Require("dserr.dserr.calls_returning_error.not-applied", 200)
 	r.Require("loaderr.constructor_returned_error", 50)
@@ -225,6 +227,80 @@ func socketForms(r *run.R) {
 	}
 }
 
+// subnetSpellings: the same subnet written with host bits set (a valid *net.IPNet that net.ParseCIDR never
+// returns but a caller can build: &net.IPNet{IP: someHostIP, Mask: mask}). Blocking must enforce the
+// subnet; "every unblock whose call returned success is not [enforced]" must hold whichever spelling of
+// the same subnet the unblock call was given, in memory and after a restart on the same datastore.
+func subnetSpellings(r *run.R) {
+	type tc struct{ name, hostbits, canonical, inside string }
+	for _, c := range []tc{
+		{"v4", "10.1.2.77/24", "10.1.2.0/24", "/ip4/10.1.2.3/tcp/4001"},
+		{"v6", "2001:db8::1:2/32", "2001:db8::/32", "/ip6/2001:db8:5::9/tcp/4001"},
+	} {
+		for _, order := range []string{"block-hostbits-unblock-canonical", "block-canonical-unblock-hostbits"} {
+			caseID := "fn/subnet-spellings/" + c.name + "/" + order
+			if !r.Want(caseID) {
+				continue
+			}
+			r.Eval(1)
+			hip, hn, err := net.ParseCIDR(c.hostbits)
+			if err != nil {
+				t := err.Error()
+				r.Inconclusive(caseID, t)
+				continue
+			}
+			if hn.IP.To4() != nil {
+				hip = hip.To4()
+			}
+			hostbits := &net.IPNet{IP: hip, Mask: hn.Mask} // same mask, IP keeps its host bits
+			_, canonical, _ := net.ParseCIDR(c.canonical)
+			first, second := hostbits, canonical
+			if order == "block-canonical-unblock-hostbits" {
+				first, second = canonical, hostbits
+			}
+			rec := newRecDS()
+			g, err := conngater.NewBasicConnectionGater(rec)
+			if err != nil {
+				r.Inconclusive(caseID, err.Error())
+				continue
+			}
+			probe := mustMA(c.inside)
+			cm := &cmaddrs{local: localMA, remote: probe}
+			detail := map[string]any{"block_arg": first.String(), "unblock_arg": second.String(), "probe": c.inside}
+			if err := g.BlockSubnet(first); err != nil {
+				r.Inconclusive(caseID, err.Error())
+				continue
+			}
+			if g.InterceptAddrDial(allPeers[0], probe) || g.InterceptAccept(cm) {
+				r.Violation("live/subnet-spelling/admitted-blocked/"+order, caseID,
+					fmt.Sprintf("BlockSubnet(%s) returned success but %s is allowed", first, c.inside), detail)
+				continue
+			}
+			r.Count("spelling.block_enforced", 1)
+			if err := g.UnblockSubnet(second); err != nil {
+				r.Count("spelling.unblock_returned_error", 1) // refusing the other spelling is not a violation
+				continue
+			}
+			if !g.InterceptAddrDial(allPeers[0], probe) || !g.InterceptAccept(cm) {
+				r.Violation("live/subnet-spelling/unblock-returned-success-still-enforced/"+order, caseID,
+					fmt.Sprintf("BlockSubnet(%s); UnblockSubnet(%s) returned success (same subnet %s) but %s is still refused; ListBlockedSubnets=%v", first, second, c.canonical, c.inside, g.ListBlockedSubnets()), detail)
+				continue
+			}
+			ng, err := reopen(rec.snapshot())
+			if err != nil {
+				r.Violation("reopen/constructor-error", caseID, err.Error(), detail)
+				continue
+			}
+			if !ng.InterceptAddrDial(allPeers[0], probe) || !ng.InterceptAccept(cm) {
+				r.Violation("reopen/subnet-spelling/unblock-returned-success-still-enforced/"+order, caseID,
+					fmt.Sprintf("BlockSubnet(%s); UnblockSubnet(%s) returned success; after reopening %s is refused", first, second, c.inside), detail)
+				continue
+			}
+			r.Count("spelling.unblock_effective", 1)
+		}
+	}
+}
+
 // ---- (2) persistence ------------------------------------------------------------------------------
 
 func crashPoints(r *run.R) {
@@ -240,6 +316,9 @@ func crashPoints(r *run.R) {
 		rng := r.Rand(2, uint64(i))
 		h := genHistory(rng, 6, 28)
 		cfg := runCfg{Store: "rec", Crash: true, FailOp: -1}
+		if i%2 == 1 {
+			cfg.Restart = 3 + i%4 // half of the histories also restart the gater every few calls and go on
+		}
 		st := stats{}
 		o := runHistory(h, cfg, st)
 		r.Eval(1)
